@@ -7,14 +7,23 @@ patterns by kernel enumeration plus structural proofs.
 
 Tie / exhaustive correspondence of the models with the real code
 (harness/corr/half_c03.cpp against lean/Driver/Half.lean):
-  classification + unary minus (2^16), round(n) for n = 0..12 (13 x 2^16),
-  halfFunction with several f / domain choices (each 2^16).
+  classification + unary minus + std::fpclassify/std::signbit of float(h) (2^16),
+  round(n) for n = 0..12 (13 x 2^16), halfFunction with several f / domain
+  choices (each 2^16), the one- and two-argument constructors (header default
+  arguments) for T = unsigned/float/half, and a second build with
+  -DIMATH_HAVE_LARGE_STACK.
 Sub-claims that are NOT provable here and are decided by enumeration:
   compound arithmetic `a op= b` against the property's own right-hand side
   half(float(a) op float(b)) evaluated with the model conversions and Lean's
   Float32 operation (quick: all ordered pairs over ~6,000 boundary patterns x
   4 operators x {half rhs, float rhs} + 2,048 full rows; thorough: all 2^32 ordered half pairs x 4);
-  text I/O: all 63,488 finite halves through the real operator<< / operator>>."""
+  the same claim WITHOUT any model, bit-exactly including NaN sign and payload:
+  x op= y against half(float(x) op float(y)) written out in the harness, over the
+  boundary sets (half and float rhs) and over all 2^32 ordered half pairs;
+  text I/O: all 63,488 finite halves through the real operator<< / operator>> at the
+  stream's default precision and at max_digits10 (must all round-trip), at
+  max_digits10 - 1 (some must fail), and every digits10-digit decimal in the
+  normalized range through operator>> / operator<< (must be reproduced)."""
 import os, time
 from concurrent.futures import ThreadPoolExecutor
 import lib, gen_halflimits, halfcorr, halfspec
@@ -23,7 +32,8 @@ REQUIRED = ["neg_bits", "neg_value", "class_partition", "class_float_agree", "ma
             "min_is_smallest_normal", "denorm_min_is_smallest_positive", "epsilon_is_gap_above_one", "lowest_is_neg_max",
             "round_error_is_half", "digits_exact", "digits10_defining", "exponent_limits", "special_values", "macros_agree",
             "max_conversion_boundary", "round_identity", "round_spec", "round_coherent", "lut_size", "lut_spec",
-            "halfLt_iff_value"]
+            "halfLt_iff_value", "fpclassify_agree", "halfFunction_default_domain", "round_nan", "other_members",
+            "is_bounded_observed"]
 
 OPS = ["+=", "-=", "*=", "/="]
 LUTS = [("id", 0xfbff, 0x7bff, "default domain [-HALF_MAX, HALF_MAX]"),
@@ -93,16 +103,27 @@ def lines_of(cmd, stdin=None, timeout=1800):
     return rc, out.split("\n")[:-1] if out.endswith("\n") else out.split("\n")
 
 
-def compare_all(chk, binary, args, name, keyfmt, what):
+_DRV_CACHE = {}
+
+
+def driver_lines(args):
+    k = tuple(args)
+    if k not in _DRV_CACHE:
+        _DRV_CACHE[k] = lines_of([halfcorr.DRV] + list(args), timeout=600)
+    return _DRV_CACHE[k]
+
+
+def compare_all(chk, binary, args, name, keyfmt, what, drv_args=None):
     """One 2^16-line command on both sides; returns True when identical."""
     rc1, a = lines_of([binary] + args, timeout=600)
-    rc2, b = lines_of([halfcorr.DRV] + args, timeout=600)
+    rc2, b = driver_lines(drv_args if drv_args is not None else args)
     ok = rc1 == 0 and rc2 == 0 and len(a) == 65536 and a == b
     chk.oblige("corr:%s:all-2^16" % name, "correspondence", ok)
     chk.count(65536, 65536 - 2)
     if not ok:
         d = [i for i in range(min(len(a), len(b))) if a[i] != b[i]]
-        rep = {"command": " ".join(args), "mismatches": len(d), "harness_rc": rc1, "driver_rc": rc2,
+        rep = {"command": " ".join(args), "model_command": "drv_half " + " ".join(drv_args if drv_args is not None else args),
+               "mismatches": len(d), "harness_rc": rc1, "driver_rc": rc2,
                "harness_lines": len(a), "model_lines": len(b)}
         key = keyfmt % (d[0] if d else 0)
         if d:
@@ -155,24 +176,94 @@ def limits_expected():
             "limits_min_exponent": -13, "limits_max_exponent": 16, "limits_min_exponent10": -4, "limits_max_exponent10": 4}
 
 
+MACRO_NAMES = (("macro_HALF_MAX", "limits_max"), ("macro_HALF_MIN", "limits_min"), ("macro_HALF_NRM_MIN", "limits_min"),
+               ("macro_HALF_DENORM_MIN", "limits_denorm_min"), ("macro_HALF_EPSILON", "limits_epsilon"))
+
+
+def macro_value_defects(vals):
+    """Each float HALF_* macro against the value it NAMES, as a binary32 pattern: (float) HALF_X must be
+    bit-exactly h2f(true extreme) (2^-14 is 0x38800000, not a neighbouring float that merely converts to
+    0x0400).  HALF_EPSILON is a decimal truncated to 5 significant digits: it must convert to epsilon, not
+    exceed 2^-10 and differ from it by less than one unit of its last printed digit (1e-8)."""
+    from fractions import Fraction
+    import struct
+    exp = limits_expected()
+    bad = []
+    for mac, lim in MACRO_NAMES:
+        want = halfspec.spec_h2f(exp[lim])
+        got = vals[mac]
+        if mac == "macro_HALF_EPSILON":
+            gv = Fraction(struct.unpack("<f", struct.pack("<I", got))[0])
+            ok = halfspec.spec_f2h(got) == exp[lim] and got <= want and Fraction(1, 1024) - gv < Fraction(1, 10 ** 8)
+        else:
+            ok = got == want
+        if not ok:
+            bad.append({"key": "C03:limits:" + mac, "macro": mac[6:], "float_bits_of_macro": "0x%08x" % got,
+                        "value_it_names": "std::numeric_limits<half>::%s() = 0x%04x" % (lim[7:], exp[lim]),
+                        "float_bits_of_that_value": "0x%08x" % want, "macro_converts_to_half": "0x%04x" % halfspec.spec_f2h(got),
+                        "replay_cmd": ".build/bin/half_limits_dump | grep %s" % mac})
+    return bad
+
+
+def msvc_block_defects():
+    """The _MSC_VER branch of the float macros (never compiled here) must denote the same binary32 values as the
+    branch that is compiled: {macro: (msvc literal, other literal)} for those that differ or are missing."""
+    mb = gen_halflimits.macro_blocks()
+    bad = {}
+    for k in gen_halflimits.FLOAT_MACROS:
+        a, b = mb["msvc"].get(k), mb["other"].get(k)
+        if a is None or b is None:
+            bad[k] = (a, b)
+            continue
+        fa = gen_halflimits.f32_of_decimal(a[0]) if a[1] else gen_halflimits.f32bits(float(a[0]))
+        fb = gen_halflimits.f32_of_decimal(b[0]) if b[1] else gen_halflimits.f32bits(float(b[0]))
+        if fa != fb:
+            bad[k] = (a[0] + a[1] + " = 0x%08x" % fa, b[0] + b[1] + " = 0x%08x" % fb)
+    extra = sorted((set(mb["msvc"]) ^ set(mb["other"])) - set(bad))
+    for k in extra:
+        bad[k] = (mb["msvc"].get(k), mb["other"].get(k))
+    return bad, mb
+
+
+def parse_kv(line):
+    return {k: int(v) for k, v in (w.split("=") for w in line.split()[1:])}
+
+
 def run(chk):
     chk.trusted = ["Lean 4.33 kernel (decide +kernel enumeration through allBits, no native_decide)",
                    "axioms: propext, Classical.choice, Quot.sound at most",
                    "hand models Model/Half.lean (classification, neg, roundN), Model/HalfFunction.lean, tied by exhaustive correspondence",
-                   "translator tools/gen_halflimits.py (compiled dump of numeric_limits<half> / HALF_* from the current half.h, cross-checked by regex)",
+                   "translator tools/gen_halflimits.py (compiled dump of numeric_limits<half> / HALF_* from the current half.h, cross-checked by regex; "
+                   "exact rational decimal->binary32 reading of the macro literals)",
+                   "libm std::fpclassify / std::signbit as the platform's float classification",
                    "g++ 12 and the CPU executing the harness; FNV-1a 64-bit row hashes for the arithmetic sweeps"]
     chk.assumptions = ["Spec/HalfSpec.lean, Spec/HalfNum.lean state the binary16 denotation, classes and 'half a unit of n-bit precision' correctly",
-                       "compound arithmetic: the hardware binary32 +,-,*,/ executed by Lean's compiled Float32 is the same operation the "
-                       "C++ code executes (both are SSE scalar ops on this machine); NaN results are compared by NaN-ness only "
+                       "compound arithmetic, model route: the hardware binary32 +,-,*,/ executed by Lean's compiled Float32 is the same operation the "
+                       "C++ code executes (both are SSE scalar ops on this machine); there NaN results are compared by NaN-ness only "
                        "(Lean's Float32.toBits has a single canonical NaN)",
-                       "text I/O: libstdc++'s operator<<(float) at default precision 6 and operator>>(float) are run, not modelled; "
-                       "the claim is exhaustive over all finite halves for THIS runtime",
-                       "halfFunction: the tabulated function is abstract in the theorem; correspondence uses three concrete f"]
-    chk.rule = ("all 2^16 half patterns for classification/unary minus, round(n) with n = 0..12, halfFunction tables with 9 f/domain "
-                "choices; arithmetic: all ordered pairs over ~6,000 boundary halves (zeros, subnormal/normal edges, every power of two "
-                "+-1 ulp, max, inf, NaNs, seeded random) x 4 operators with half rhs and with ~6,000 float rhs (exact halves, ties and "
-                "near-ties between halves, float subnormals, overflow/underflow thresholds, inf, NaNs, seeded random), plus 2,048 seeded left operands against all 65,536 half rhs; thorough: all "
-                "2^32 ordered half pairs x 4 operators; text: all 63,488 finite halves")
+                       "compound arithmetic, self-check route (no model): the reference half(float(x) op float(y)) is evaluated by the same "
+                       "compiler/CPU through volatile temporaries and the real conversions (which C01/C02 tie to the model); compared "
+                       "bit-for-bit incl. NaN sign and payload.  For + and * with BOTH operands NaN the commuted reference is also accepted "
+                       "(C++ does not fix which operand's payload an x86 addss/mulss propagates; count in extra.arith_selfcheck_*.commuted_accepted)",
+                       "text I/O: libstdc++'s operator<<(float) / operator>>(float) in the C locale are run, not modelled; the claims are exhaustive "
+                       "over all finite halves / all digits10-digit decimals for THIS runtime.  NOT claimed: text of non-finite values "
+                       "('inf'/'nan' do not read back with libstdc++), the failure path of operator>> (h = half(0) since C++11), other locales",
+                       "halfFunction: the tabulated function is abstract in the theorem; correspondence uses three concrete f, element types "
+                       "unsigned/float/half and both settings of IMATH_HAVE_LARGE_STACK",
+                       "the _MSC_VER branch of the HALF_* float macros is read as text only (never compiled here)",
+                       "numeric_limits<half>::is_bounded/is_iec559/traps/tinyness_before/has_denorm_loss are dumped and reported in "
+                       "extra.observed_outside_property, but nothing is claimed about them (the property lists the extremes and digit counts only)"]
+    chk.rule = ("all 2^16 half patterns for classification/unary minus/std::fpclassify+signbit of float(h), round(n) with n = 0..12, "
+                "halfFunction tables: 9 f/domain choices with 7 explicit arguments, the one- and two-argument constructors (header "
+                "defaults) and 7-argument tables for T = unsigned/float/half, repeated in a -DIMATH_HAVE_LARGE_STACK build (read through "
+                "a copy of the object); arithmetic: all ordered pairs over ~6,000 boundary halves (zeros, subnormal/normal edges, every "
+                "power of two +-1 ulp, max, inf, NaNs, seeded random) x 4 operators with half rhs and with ~6,000 float rhs (exact "
+                "halves, ties and near-ties between halves, float subnormals, overflow/underflow thresholds, inf, quiet and signalling "
+                "NaNs, seeded random) against the model AND bit-exactly against half(float(x) op float(y)) evaluated in the harness, "
+                "plus 2,048 seeded left operands against all 65,536 half rhs (model) and ALL 2^32 ordered half pairs x 4 (self-check, "
+                "both tiers); thorough: all 2^32 ordered half pairs x 4 operators against the model; text: all 63,488 finite halves at "
+                "precision 6, max_digits10 and max_digits10-1, all digits10- and (digits10+1)-digit decimals in the normalized range; "
+                "limits: every HALF_* float macro as a binary32 pattern against the value it names, MSVC branch against the compiled branch")
     vals, rx, changed, gout = gen_halflimits.regenerate()
     okg = vals is not None
     chk.oblige("translator: numeric_limits<half>/HALF_* dump compiled from the current half.h", "translator", okg,
@@ -189,10 +280,44 @@ def run(chk):
             chk.fail("translator-validation:halflimits", "C03:translator:regex-vs-compiled:" + sorted(dis)[0],
                      "regex and compiled readings of half.h disagree", {"compiled_vs_regex": dis}, False)
         chk.extra["half_limits"] = {k: (("0x%x" % v) if not k.startswith("limits_") or v > 64 else v) for k, v in vals.items()}
+        # observed, OUTSIDE the property (its list of extremes does not include the classification traits): recorded, never a violation
+        chk.extra["observed_outside_property"] = [
+            {"what": "std::numeric_limits<half>::is_bounded", "value": bool(vals.get("limits_is_bounded")),
+             "note": "the type is bounded: 65,536 values, every finite one in [lowest(), max()] (theorems lowest_is_neg_max, "
+                     "is_bounded_observed); [numeric.limits.members] would have is_bounded = true (as for float); the header says "
+                     + ("false" if not vals.get("limits_is_bounded") else "true")},
+            {"what": "half::round(n) of a NaN", "value": "payload truncated; an infinity iff payload < 2^(10-n), e.g. 0x7c01.round(0) = 0x7c00",
+             "note": "theorem round_nan; the property restricts round(n) to finite or infinite inputs"},
+            {"what": "is_iec559 / traps / tinyness_before / has_denorm_loss",
+             "value": [vals.get("limits_is_iec559"), vals.get("limits_traps"), vals.get("limits_tinyness_before"), vals.get("limits_has_denorm_loss")],
+             "note": "dumped, nothing claimed"}]
+        chk.oblige("observation (outside the property, never fails): numeric_limits<half>::is_bounded = %s although the type is bounded"
+                   % ("true" if vals.get("limits_is_bounded") else "false"), "observation", True)
+        # each float macro, AS A FLOAT, is the value it names (not merely a float that converts to it)
+        mbad = macro_value_defects(vals)
+        chk.oblige("limits: (float) HALF_MAX/HALF_MIN/HALF_NRM_MIN/HALF_DENORM_MIN are bit-exactly the binary32 images of the true "
+                   "extremes; HALF_EPSILON is 2^-10 truncated to its printed digits", "enumeration", not mbad, mbad or None)
+        chk.count(5, 5)
+        for b in mbad:
+            chk.fail("limits:macro-values", b["key"], "the float value of %s is not the value it names" % b["macro"], b, True)
+        # the branch of the macro block that this compiler never sees
+        vbad, mb = msvc_block_defects()
+        chk.oblige("limits: the _MSC_VER branch of the HALF_* float macros denotes the same binary32 values as the compiled branch "
+                   "(%d macros, text of half.h)" % len(gen_halflimits.FLOAT_MACROS), "translator-validation",
+                   not vbad and len(mb["msvc"]) == len(gen_halflimits.FLOAT_MACROS), vbad or None)
+        chk.extra["macro_literals"] = {t: {k: v[0] + v[1] for k, v in d.items()} for t, d in mb.items()}
+        if vbad or len(mb["msvc"]) != len(gen_halflimits.FLOAT_MACROS):
+            k0 = sorted(vbad)[0] if vbad else "block-not-found"
+            chk.fail("limits:msvc-branch", "C03:limits:msvc:" + k0,
+                     "the _MSC_VER and the generic definitions of %s in half.h denote different floats (or one is missing)" % k0,
+                     {"msvc_vs_other": {k: list(v) for k, v in vbad.items()}, "file": "src/Imath/half.h:205-230"}, True)
 
     def search(name):
         if vals is None:
             return None
+        for k, e in (("limits_is_specialized", 1), ("limits_is_integer", 0), ("limits_is_exact", 0), ("limits_is_modulo", 0)):
+            if name == "other_members" and vals.get(k) != e:
+                return {"key": "C03:limits:" + k, "constant": "std::numeric_limits<half>::" + k[7:], "half.h_value": vals.get(k), "expected": e}
         exp = limits_expected()
         for k, e in exp.items():
             if vals.get(k) != e:
@@ -205,6 +330,9 @@ def run(chk):
             if c != vals[lim]:
                 return {"key": "C03:limits:" + mac, "macro": mac[6:], "float_bits": "0x%08x" % vals[mac],
                         "converts_to": "0x%04x" % c, "numeric_limits_value": "0x%04x" % vals[lim]}
+        mb_ = macro_value_defects(vals)
+        if mb_:
+            return mb_[0]
         for mac, lim in (("macro_HALF_MANT_DIG", "limits_digits"), ("macro_HALF_DIG", "limits_digits10"),
                          ("macro_HALF_DECIMAL_DIG", "limits_max_digits10"), ("macro_HALF_RADIX", "limits_radix"),
                          ("macro_HALF_DENORM_MIN_EXP", "limits_min_exponent"), ("macro_HALF_MAX_EXP", "limits_max_exponent"),
@@ -231,10 +359,40 @@ def run(chk):
     if not okd:
         chk.fail("build:drv_half", "C03:build:drv_half", "the model driver does not build", {"output": out[-3000:]}, False)
         return
+    # the other build configuration of halfFunction.h: the table is an array member, no new[]/delete[], copyable
+    okl, binary_ls, ol = lib.cxx_build("half_c03_ls", ["corr/half_c03.cpp", os.path.join(lib.REPO, "src/Imath/half.cpp")],
+                                       extra=["-DIMATH_HAVE_LARGE_STACK"])
+    chk.oblige("build:half_c03 with -DIMATH_HAVE_LARGE_STACK", "build", okl, None if okl else ol[-800:])
+    if not okl:
+        chk.fail("build:half_c03_ls", "C03:build:half_c03_ls", "the C03 harness does not compile with -DIMATH_HAVE_LARGE_STACK",
+                 {"compiler_output": ol[-3000:]}, False)
 
     # -- (2) bit-level models against the real code, all 2^16 patterns -----------------------------
-    compare_all(chk, binary, ["class_all"], "classification+unary-minus", "C03:class:0x%04x",
-                "isFinite/isNormalized/isDenormalized/isZero/isNan/isInfinity/isNegative or operator- differ from the proven model")
+    compare_all(chk, binary, ["classf_all"], "classification+unary-minus+fpclassify(float(h))", "C03:class:0x%04x",
+                "isFinite/isNormalized/isDenormalized/isZero/isNan/isInfinity/isNegative, operator-, or std::fpclassify/std::signbit "
+                "of float(h) differ from the proven model (fpClass32 (h2f h), theorem fpclassify_agree)")
+    # the same clause with NO model: the real predicates against the platform's classification of the real float(h)
+    rcc, cl = lines_of([binary, "classf_all"], timeout=600)
+    badc = None
+    hist = {}
+    for hb, l in enumerate(cl):
+        w = l.split()
+        c, fc, sb = int(w[0]), int(w[2]), int(w[3])
+        want = 0 if c & 8 else 1 if c & 6 else 3 if c & 32 else 4 if c & 16 else 9
+        hist[fc] = hist.get(fc, 0) + 1
+        if (fc != want or sb != (c >> 6) & 1 or bin(c & 0x3e).count("1") != 1) and badc is None:
+            badc = (hb, l, want)
+    okc = rcc == 0 and len(cl) == 65536 and badc is None
+    chk.oblige("enum:half::isXxx() agree with std::fpclassify/std::signbit of float(h) on the real code:all-2^16", "enumeration", okc)
+    chk.count(65536, 65536 - 2)
+    chk.extra["fpclassify_histogram"] = {"FP_ZERO": hist.get(0, 0), "FP_NORMAL": hist.get(1, 0), "FP_SUBNORMAL": hist.get(2, 0),
+                                         "FP_INFINITE": hist.get(3, 0), "FP_NAN": hist.get(4, 0)}
+    if not okc:
+        hb, l, want = badc if badc else (0, "", 9)
+        chk.fail("enum:class-vs-fpclassify", "C03:class-fpclassify:0x%04x" % hb,
+                 "the half classification predicates disagree with std::fpclassify/std::signbit of float(h)",
+                 {"half_bits": "0x%04x" % hb, "line(classbits neg fpclass signbit)": l, "fpclass_expected_from_predicates": want,
+                  "replay_cmd": "%s classf_all | sed -n %dp" % (os.path.relpath(binary, lib.VERIF), hb + 1)}, badc is not None)
     for n in range(13):
         compare_all(chk, binary, ["round_all", str(n)], "round(%d)" % n, "C03:round:n=" + str(n) + ":0x%04x",
                     "half::round(%d) differs from the proven model" % n)
@@ -244,6 +402,43 @@ def run(chk):
                     "halfFunction table (f=%s, domain %s) differs from the proven model" % (f, note))
     chk.extra["halfFunction_choices"] = [{"f": f, "domainMin": "0x%04x" % lo, "domainMax": "0x%04x" % hi, "what": note}
                                          for f, lo, hi, note in LUTS]
+    # default arguments (halfFunction.h 73-80): one- and two-argument constructors.  The model is given the domain the header
+    # PROMISES, [half(float(-HALF_MAX)), half(float(HALF_MAX))] computed by the independent spec conversion from the compiled
+    # macro (theorem halfFunction_default_domain: that is [lowest(), max()]), and 0 for the four designated values.
+    if vals is not None:
+        dmin = halfspec.spec_f2h(vals["macro_HALF_MAX"] ^ 0x80000000)
+        dmax = halfspec.spec_f2h(vals["macro_HALF_MAX"])
+        tn = {"u": "unsigned", "f": "float", "h": "half"}
+        builds = [("", binary)] + ([("+LARGE_STACK", binary_ls)] if okl else [])
+        ndef = 0
+        for btag, bn in builds:
+            for t in ("u", "f", "h"):
+                for f in (("id", "neg", "round3") if not btag else ("neg",)):
+                    compare_all(chk, bn, ["lutd", t, f], "halfFunction<%s>(%s) one-argument ctor%s" % (tn[t], f, btag),
+                                "C03:lut-default:%s:%s%s:" % (t, f, btag) + "0x%04x",
+                                "halfFunction<%s> built with the header's default arguments is not f on [-HALF_MAX, HALF_MAX] and 0 elsewhere"
+                                % tn[t], drv_args=["lutv", f, "%x" % dmin, "%x" % dmax, "0", "0", "0", "0"])
+                    ndef += 1
+            for t, f, lo in (("u", "neg", 0x0000), ("h", "id", 0xbc00), ("f", "round3", 0x3c00)):
+                compare_all(chk, bn, ["lutd2", t, f, "%x" % lo], "halfFunction<%s>(%s,0x%04x) two-argument ctor%s" % (tn[t], f, lo, btag),
+                            "C03:lut-default2:%s:%s:%04x%s:" % (t, f, lo, btag) + "0x%04x",
+                            "halfFunction<%s> with a defaulted domainMax is not f on [domainMin, HALF_MAX]" % tn[t],
+                            drv_args=["lutv", f, "%x" % lo, "%x" % dmax, "0", "0", "0", "0"])
+                ndef += 1
+            # all seven arguments, element types float and half (and unsigned in the large-stack build)
+            for t, f, lo, hi, v in (("f", "round3", 0xbc00, 0x3c00, (0x10000, 0x10001, 0x10002, 0x10003)),
+                                    ("h", "neg", 0x0000, 0x7bff, (0x3555, 0x7c00, 0xfc00, 0x7e00)),
+                                    ("h", "id", 0x7e00, 0x3c00, (0x0001, 0x8000, 0x0000, 0x7fff)),
+                                    ("u", "id", 0x0001, 0x03ff, (0x10000, 0x10001, 0x10002, 0x10003))):
+                hv = ["%x" % x for x in v]
+                compare_all(chk, bn, ["lutv", t, f, "%x" % lo, "%x" % hi] + hv,
+                            "halfFunction<%s>(%s,[0x%04x,0x%04x],4 values)%s" % (tn[t], f, lo, hi, btag),
+                            "C03:lutv:%s:%s:%04x:%04x%s:" % (t, f, lo, hi, btag) + "0x%04x",
+                            "halfFunction<%s> table differs from the proven model" % tn[t],
+                            drv_args=["lutv", f, "%x" % lo, "%x" % hi] + hv)
+                ndef += 1
+        chk.extra["halfFunction_default_args"] = {"domainMin": "0x%04x" % dmin, "domainMax": "0x%04x" % dmax, "tables_compared": ndef,
+                                                  "element_types": list(tn.values()), "builds": [b or "default" for b, _ in builds]}
 
     # -- (3) compound arithmetic -------------------------------------------------------------------
     hs = boundary_halves(chk.rng)
@@ -283,6 +478,56 @@ def run(chk):
     else:
         chk.sample({"a": "0x3c00", "op": "+=", "float_rhs": "0x3a000000 (2^-11, the tie above 1.0)", "result": "0x3c00 (ties to even)"})
         chk.sample({"a": "0x7bff", "op": "+=", "half_rhs": "0x4c00 (16, exactly half an ulp of 65504)", "result": "0x7c00 (65520 rounds to infinity)"})
+
+    # -- (3b) the property's literal statement, no model: x op= y == half(float(x) op float(y)) bit-exactly ------------
+    def self_fail(obligation, lines, rc):
+        mm = [l.split() for l in lines if l.startswith("mismatch ")]
+        if mm and mm[0][1] in ("h", "f"):
+            kind, a, op, b = mm[0][1], int(mm[0][2], 16), int(mm[0][3]), int(mm[0][4], 16)
+            got, expd = mm[0][5].split("=")[1], mm[0][6].split("=")[1]
+            rep = {"lhs_half_bits": "0x%04x" % a, "operator": OPS[op], "rhs_kind": "half" if kind == "h" else "float",
+                   "rhs_bits": ("0x%04x" if kind == "h" else "0x%08x") % b, "implementation_result": "0x" + got,
+                   "half(float(a) op float(rhs)) evaluated in the harness": "0x" + expd, "mismatching_lines": len(mm),
+                   "note": "bit-exact comparison, NaN sign and payload included",
+                   "replay_cmd": "printf '%x\\n%s\\n' | %s arith_self_list" % (a, ("%x" % b) if kind == "f" else "", os.path.relpath(binary, lib.VERIF))
+                   if kind == "f" else "printf '%x %x\\n\\n' | %s arith_self_list" % (a, b, os.path.relpath(binary, lib.VERIF))}
+            chk.fail(obligation, "C03:arith-self:%s:0x%04x%s0x%x" % (kind, a, OPS[op], b),
+                     "half %s with a %s right-hand side is not bit-for-bit half(float(a) %s rhs)" % (OPS[op], rep["rhs_kind"], OPS[op][0]), rep, True)
+        elif mm and mm[0][1] == "=":
+            fb = int(mm[0][2], 16)
+            chk.fail(obligation, "C03:assign-float:0x%08x" % fb, "half::operator=(float) differs from the half(float) constructor",
+                     {"float_bits": "0x%08x" % fb, "assigned": mm[0][3], "constructed": mm[0][4]}, True)
+        else:
+            chk.fail(obligation, "C03:arith-self:protocol", "the arithmetic self-check did not run to completion",
+                     {"harness_rc": rc, "tail": lines[-3:]}, False)
+
+    rcs, sl = lines_of([binary, "arith_self_list"], stdin=text)
+    st = {l.split()[0]: parse_kv(l) for l in sl if l.startswith(("arith_self ", "assign_float "))}
+    want_ev = 4 * len(hs) * (len(hs) + len(fs))
+    oks = (rcs == 0 and st.get("arith_self", {}).get("evals") == want_ev and st["arith_self"]["mismatches"] == 0 and
+           st.get("assign_float", {}).get("evals") == len(fs) and st["assign_float"]["mismatches"] == 0)
+    chk.oblige("enum:x op= y is bit-for-bit half(float(x) op float(y)), NaN sign+payload included, no model: boundary pairs "
+               "(%d halves x (%d halves + %d floats) x 4 ops); half::operator=(float) = half(float) on %d floats"
+               % (len(hs), len(hs), len(fs), len(fs)), "enumeration", oks)
+    chk.count(want_ev + len(fs), 4 * nn * (nn + nf))
+    chk.extra["arith_selfcheck_quick"] = st
+    if not oks:
+        self_fail("enum:arith-self:boundary-pairs", sl, rcs)
+    # non-vacuity of "NaN sign and payload included": the sweep must contain NaN results of both signs and non-canonical payloads
+    nv = st.get("arith_self", {})
+    chk.oblige("enum:arith-self reach: NaN results with negative sign and with a payload other than 0x200 occur",
+               "generator-reach", nv.get("negative_nan", 0) > 1000 and nv.get("noncanonical_payload", 0) > 1000,
+               {k: nv.get(k) for k in ("nan_results", "negative_nan", "noncanonical_payload", "commuted_accepted")})
+    # all 2^32 ordered half pairs (16 threads, about 25 s): the half-rhs clause is exhaustive in BOTH tiers
+    t0 = time.time()
+    rcs, sl = lines_of([binary, "arith_self_blocks", "0", "65536"], timeout=3600)
+    stb = {l.split()[0]: parse_kv(l) for l in sl if l.startswith("arith_self ")}
+    okb = rcs == 0 and stb.get("arith_self", {}).get("evals") == 4 << 32 and stb["arith_self"]["mismatches"] == 0
+    chk.oblige("enum:x op= y is bit-for-bit half(float(x) op float(y)): all-2^32-ordered-half-pairs x 4 ops (no model)", "enumeration", okb)
+    chk.count(4 << 32, 4 * (65536 - 2 - 2046) ** 2)
+    chk.extra["arith_selfcheck_all_pairs"] = dict(stb.get("arith_self", {}), wall_s=round(time.time() - t0, 1))
+    if not okb:
+        self_fail("enum:arith-self:all-pairs", sl, rcs)
 
     # full rows: a seeded selection of left operands against ALL 65,536 half right-hand sides
     if okq and not chk.thorough:
@@ -344,6 +589,53 @@ def run(chk):
                         "replay_cmd": "%s textio | grep mismatch" % os.path.relpath(binary, lib.VERIF)})
             key += ":0x%04x" % h
         chk.fail("corr:text-io", key, "a finite half does not survive operator<< followed by operator>>", rep, bool(mm))
+    # the digit counts of numeric_limits<half> are ABOUT this I/O: tie them to it
+    if vals is not None:
+        md, d10 = int(vals["limits_max_digits10"]), int(vals["limits_digits10"])
+
+        def tio(args):
+            rc_, l_ = lines_of([binary] + args, timeout=600)
+            sm = [x for x in l_ if x.startswith(args[0] + " ")]
+            kv = parse_kv(sm[0]) if rc_ == 0 and len(sm) == 1 else {}
+            return kv, [x for x in l_ if x.startswith("mismatch ")], [x for x in l_ if x.startswith("sample ")]
+        kv, mm, _ = tio(["textio", str(md)])
+        ok1 = kv.get("finite") == 63488 and kv.get("mismatches") == 0
+        chk.oblige("corr:text-io at setprecision(max_digits10 = %d): all 63,488 finite halves round-trip" % md, "correspondence", ok1)
+        chk.count(63488, 63486)
+        if not ok1:
+            w = mm[0].split() if mm else None
+            chk.fail("corr:text-io:max_digits10", "C03:textio:max_digits10" + (":0x%04x" % int(w[1], 16) if w else ""),
+                     "a finite half printed with max_digits10 significant digits does not read back",
+                     {"max_digits10": md, "summary": kv, "first_mismatches(bits text readback)": mm[:5],
+                      "replay_cmd": "%s textio %d | grep mismatch" % (os.path.relpath(binary, lib.VERIF), md)}, bool(w))
+        kv, mm, _ = tio(["textio", str(md - 1)])
+        ok2 = kv.get("finite") == 63488 and kv.get("mismatches", 0) > 0
+        chk.oblige("corr:text-io at setprecision(max_digits10 - 1 = %d): some finite half does NOT round-trip (max_digits10 is minimal)"
+                   % (md - 1), "correspondence", ok2, {"failing_halves": kv.get("mismatches"), "witness": mm[:1]})
+        chk.count(63488, 63486)
+        if not ok2:
+            chk.fail("corr:text-io:max_digits10-minimal", "C03:textio:max_digits10-not-minimal",
+                     "every finite half already round-trips with max_digits10 - 1 digits: max_digits10 is not the smallest sufficient count",
+                     {"max_digits10": md, "summary": kv}, False)
+        kv, mm, smp = tio(["textio_dec", str(d10)])
+        ok3 = kv.get("digits") == d10 and kv.get("decimals", 0) > 100 * d10 and kv.get("mismatches") == 0
+        chk.oblige("corr:text-io digits10 = %d: every %d-digit decimal with 2^-14 <= |v| <= 65504 survives operator>> then operator<< "
+                   "(%s decimals)" % (d10, d10, kv.get("decimals")), "correspondence", ok3)
+        chk.count(kv.get("decimals", 0), kv.get("decimals", 0))
+        chk.extra["textio_decimal_samples"] = smp
+        if not ok3:
+            chk.fail("corr:text-io:digits10", "C03:textio:digits10" + (":" + mm[0].split()[1] if mm else ""),
+                     "a decimal with digits10 significant digits in the normalized range is changed by text -> half -> text",
+                     {"digits10": d10, "summary": kv, "first_mismatches(text bits printed)": mm[:5],
+                      "replay_cmd": "%s textio_dec %d | grep mismatch" % (os.path.relpath(binary, lib.VERIF), d10)}, bool(mm))
+        kv, mm, _ = tio(["textio_dec", str(d10 + 1)])
+        ok4 = kv.get("digits") == d10 + 1 and kv.get("mismatches", 0) > 0
+        chk.oblige("corr:text-io digits10 + 1 = %d digits: some decimal does NOT survive (digits10 is maximal)" % (d10 + 1),
+                   "correspondence", ok4, {"failing_decimals": kv.get("mismatches"), "of": kv.get("decimals"), "witness": mm[:1]})
+        chk.count(kv.get("decimals", 0), kv.get("decimals", 0))
+        if not ok4:
+            chk.fail("corr:text-io:digits10-maximal", "C03:textio:digits10-not-maximal",
+                     "every decimal with digits10 + 1 digits survives: digits10 is not the largest such count", {"digits10": d10, "summary": kv}, False)
     chk.exhaustive = True
     chk.sample({"half_bits": "0x7bff", "round(0)": "0x7800", "note": "rounding up would reach 0x7c00: truncated instead"})
     chk.sample({"half_bits": "0x7c01", "round(0)": "0x7c00", "note": "NaN whose payload is truncated away becomes +infinity (outside the property's claim)"})
